@@ -568,7 +568,9 @@ func (fc *FnCtx) callInterface(st *State, sel *ast.SelectorExpr, s *types.Select
 	if r, ok := fc.builtinExtern(st, m, &rv, args, call); ok {
 		return r
 	}
-	return fc.applyCall(st, m, &rv, args, call.Pos(), call)
+	res := fc.applyCall(st, m, &rv, args, call.Pos(), call)
+	fc.ghostUpdatesAfterCall(st, m.Name(), res)
+	return res
 }
 
 func (fc *FnCtx) callFuncValue(st *State, fun ast.Expr, call *ast.CallExpr) []Val {
